@@ -126,3 +126,98 @@ Proof.
   - apply in_flat_map in H. destruct H as [t [_ H]]. apply (table_of_good t (k', v) H).
   - apply in_app_or in H. destruct H as [H|H]; apply in_map_iff in H; destruct H as [x [E _]]; injection E as _ <-; vm_compute; reflexivity.
 Qed.
+
+(* ---- the analysis is a function of the SET of names: whatever order the entries were created in ---- *)
+From Coq Require Import Sorting.Sorted Sorting.Permutation.
+
+Lemma bytes_leb_refl a : bytes_leb a a = true.
+Proof. induction a as [|x a IH]; simpl; [reflexivity|]. rewrite N.ltb_irrefl, N.eqb_refl. exact IH. Qed.
+
+Lemma bytes_leb_total a b : bytes_leb a b = true \/ bytes_leb b a = true.
+Proof.
+  revert b; induction a as [|x a IH]; intros [|y b]; simpl; auto.
+  destruct (N.ltb x y) eqn:A; [auto|]. destruct (N.ltb y x) eqn:B; [auto|].
+  apply N.ltb_ge in A. apply N.ltb_ge in B. assert (E : x = y) by lia. subst y.
+  rewrite N.eqb_refl. apply IH.
+Qed.
+
+Lemma bytes_leb_antisym a b : bytes_leb a b = true -> bytes_leb b a = true -> a = b.
+Proof.
+  revert b; induction a as [|x a IH]; intros [|y b]; simpl; try discriminate; [reflexivity|].
+  destruct (N.ltb x y) eqn:A.
+  - apply N.ltb_lt in A. destruct (N.ltb y x) eqn:B; [apply N.ltb_lt in B; lia|].
+    destruct (N.eqb y x) eqn:C; [apply N.eqb_eq in C; lia | discriminate].
+  - destruct (N.eqb x y) eqn:C; [|discriminate]. apply N.eqb_eq in C. subst y.
+    rewrite N.ltb_irrefl, N.eqb_refl. intros H1 H2. f_equal. apply IH; assumption.
+Qed.
+
+Lemma bytes_leb_trans a b c : bytes_leb a b = true -> bytes_leb b c = true -> bytes_leb a c = true.
+Proof.
+  revert b c; induction a as [|x a IH]; intros [|y b] [|z c]; simpl; try discriminate; try reflexivity.
+  destruct (N.ltb x y) eqn:A.
+  - apply N.ltb_lt in A. intros _. destruct (N.ltb y z) eqn:B.
+    + apply N.ltb_lt in B. intros _. assert (X : N.ltb x z = true) by (apply N.ltb_lt; lia). rewrite X. reflexivity.
+    + destruct (N.eqb y z) eqn:C; [|discriminate]. apply N.eqb_eq in C. subst z. intros _.
+      assert (X : N.ltb x y = true) by (apply N.ltb_lt; lia). rewrite X. reflexivity.
+  - destruct (N.eqb x y) eqn:C; [|discriminate]. apply N.eqb_eq in C. subst y. intros H1.
+    destruct (N.ltb x z); [reflexivity|]. destruct (N.eqb x z); [|discriminate]. intros H2. exact (IH _ _ H1 H2).
+Qed.
+
+Definition name_le (a b : bytes) : Prop := bytes_leb a b = true.
+
+Lemma insert_name_perm x l : Permutation (insert_name x l) (x :: l).
+Proof.
+  induction l as [|y r IH]; simpl; [reflexivity|].
+  destruct (bytes_leb x y); [reflexivity|]. rewrite IH. apply perm_swap.
+Qed.
+
+Lemma sort_names_perm l : Permutation (sort_names l) l.
+Proof. induction l as [|x r IH]; simpl; [reflexivity|]. rewrite insert_name_perm, IH. reflexivity. Qed.
+
+Lemma insert_name_sorted x l : StronglySorted name_le l -> StronglySorted name_le (insert_name x l).
+Proof.
+  induction l as [|y r IH]; simpl; intros S; [repeat constructor|].
+  inversion S as [|? ? S' F]; subst.
+  destruct (bytes_leb x y) eqn:C.
+  - constructor; [exact S|]. constructor; [exact C|].
+    eapply Forall_impl; [|exact F]. intros z Hz. exact (bytes_leb_trans _ _ _ C Hz).
+  - constructor; [apply IH; exact S'|].
+    assert (YX : bytes_leb y x = true) by (destruct (bytes_leb_total x y) as [H|H]; [congruence | exact H]).
+    apply (Permutation_Forall (Permutation_sym (insert_name_perm x r))). constructor; assumption.
+Qed.
+
+Lemma sort_names_sorted l : StronglySorted name_le (sort_names l).
+Proof. induction l as [|x r IH]; simpl; [constructor|]. apply insert_name_sorted. exact IH. Qed.
+
+Lemma sorted_perm_unique l l' :
+  StronglySorted name_le l -> StronglySorted name_le l' -> Permutation l l' -> l = l'.
+Proof.
+  revert l'; induction l as [|x r IH]; intros l' S S' P.
+  - apply Permutation_nil in P. subst; reflexivity.
+  - destruct l' as [|y r']; [apply Permutation_sym, Permutation_nil in P; discriminate|].
+    inversion S as [|? ? Sr F]; subst. inversion S' as [|? ? Sr' F']; subst.
+    assert (XY : x = y).
+    { assert (Ix : In x (y :: r')) by (apply (Permutation_in _ P); left; reflexivity).
+      assert (Iy : In y (x :: r)) by (apply (Permutation_in _ (Permutation_sym P)); left; reflexivity).
+      destruct Ix as [E|Ix]; [congruence|]. destruct Iy as [E|Iy]; [congruence|].
+      rewrite Forall_forall in F, F'. apply bytes_leb_antisym; [apply F; exact Iy | apply F'; exact Ix]. }
+    subst y. f_equal. apply IH; [exact Sr | exact Sr' | exact (Permutation_cons_inv P)].
+Qed.
+
+(* two directories holding the same names - created, stored or enumerated in whatever order - have the same listing ... *)
+Lemma sort_names_order_free l l' : Permutation l l' -> sort_names l = sort_names l'.
+Proof.
+  intros P. apply sorted_perm_unique; [apply sort_names_sorted | apply sort_names_sorted|].
+  rewrite sort_names_perm, P. symmetry. apply sort_names_perm.
+Qed.
+
+(* ... and therefore the same project types, in the same order *)
+Lemma analyze_names_order_free l l' : Permutation l l' -> analyze_names l = analyze_names l'.
+Proof. intros P. unfold analyze_names. rewrite (sort_names_order_free l l' P). reflexivity. Qed.
+
+(* a listing that is already in name order is its own sort: what os.ReadDir returns is what the model analyses *)
+Lemma sort_names_id l : StronglySorted name_le l -> sort_names l = l.
+Proof. intros S. apply sorted_perm_unique; [apply sort_names_sorted | exact S | apply sort_names_perm]. Qed.
+
+Lemma sorted_listing_as_is listing : StronglySorted name_le listing -> analyze_names listing = detect listing.
+Proof. intros S. unfold analyze_names. rewrite (sort_names_id listing S). reflexivity. Qed.
